@@ -369,3 +369,110 @@ def self_ptr(progs):
                         rr.add(Finding('SELF-PTR', '%s|init|%s' % (f['key'], i['member']), f['loc'],
                                        'pointer field %s is initialised with an address derived from this object' % i['member'], where=f['pname'], unit=prog.uname))
     return rr
+
+
+# ------------------------------------------------------------------------------ ADVANCE / EMUL-EFFECT (memory.hpp emulations)
+def advance(progs):
+    rr = RuleResult('ADVANCE', 'an emulated memory algorithm that returns an iterator (or a pair of iterators) returns the *advanced* one: a bare '
+                               'parameter is only returned if this function itself advanced it, otherwise param + count or the result of the callee')
+    for prog in progs:
+        for f in prog.amc_functions():
+            if f.get('body') is None or not (f['name'].startswith('amc::memory_details::') or f['name'].startswith('amc::uninitialized_') or f['name'] == 'amc::destroy_n'):
+                continue
+            ret = f.get('ret', '')
+            ps = f.get('params', [])
+            if ret in ('void', '') or not ps:
+                continue
+            body = f['body']
+            advanced = set()
+            for st, lhs in A.stores(body):
+                l = A.strip(lhs)
+                if isinstance(l, dict) and l.get('k') == 'ref' and l.get('dk') == 'param':
+                    advanced.add(l.get('idx'))
+            # std::advance(first, n)
+            for c in A.calls(body):
+                if A.callee(c) == 'std::advance' and c.get('args'):
+                    a = A.strip(c['args'][0])
+                    if a.get('k') == 'ref' and a.get('dk') == 'param':
+                        advanced.add(a.get('idx'))
+            pnames = f.get('pparams') or [p.get('name') for p in ps]
+            has_count = any(x in ('count', 'n') for x in pnames)
+            has_last = 'last' in pnames
+            if not (has_count or has_last):
+                continue
+            for rt in [n for n in walk(body) if n.get('k') == 'ret' and n.get('e') is not None]:
+                comps = []
+                e = A.strip(rt['e'])
+                # look through the (elidable) copy / move construction of the returned object
+                while isinstance(e, dict) and e.get('k') == 'construct' and e.get('ctor') in ('copy', 'move') and len(e.get('args', [])) == 1:
+                    e = A.strip(e['args'][0])
+                if isinstance(e, dict) and e.get('k') == 'construct' and 'pair' in e.get('t', ''):
+                    comps = [A.strip(a) for a in e.get('args', [])]
+                else:
+                    comps = [e]
+                for ci, cexp in enumerate(comps):
+                    while isinstance(cexp, dict) and cexp.get('k') == 'construct' and cexp.get('ctor') in ('copy', 'move') and cexp.get('args'):
+                        cexp = A.strip(cexp['args'][0])
+                    if isinstance(cexp, dict) and cexp.get('k') == 'ref' and cexp.get('dk') == 'param':
+                        ok = cexp.get('idx') in advanced
+                        rr.instance('%s|%d|%s' % (f['key'], ci, ps[-1]['t'][-24:]), {'function': f['pname'][:150], 'returns_parameter': cexp.get('name'), 'advanced_here': ok})
+                        if not ok:
+                            rr.add(Finding('ADVANCE', '%s|%s|%s' % (f['key'], cexp.get('name'), ps[-1]['t'].split('::')[-1]), prog.site(f, rt),
+                                           'returns its parameter `%s` although this function never advanced it: the caller gets the start of the range '
+                                           'instead of the iterator past the last element processed' % cexp.get('name'), where=f['pname'], unit=prog.uname))
+    return rr
+
+
+EMUL_EFFECT = {
+    # emulation -> at least one call of these roles / names must be present in every overload (the effect class of the std algorithm)
+    'uninitialized_value_construct': ('construct', 'assign'), 'uninitialized_value_construct_n': ('construct', 'assign'),
+    'uninitialized_copy': ('construct', 'bytecopy'), 'uninitialized_copy_n': ('construct', 'bytecopy'),
+    'uninitialized_move': ('construct', 'bytecopy'), 'uninitialized_move_n': ('construct', 'bytecopy'),
+    'uninitialized_copy_impl': ('construct', 'bytecopy'), 'uninitialized_copy_n_impl': ('construct', 'bytecopy'),
+    'uninitialized_move_impl': ('construct', 'bytecopy'), 'uninitialized_move_n_impl': ('construct', 'bytecopy'),
+    'uninitialized_relocate_impl': ('construct', 'bytecopy'), 'uninitialized_relocate_n_impl': ('construct', 'bytecopy'),
+    'relocate_at_impl': ('construct', 'bytecopy'), 'construct_at_impl': ('construct', 'bytecopy'),
+    'destroy_at': ('destroy',), 'destroy': ('destroy',), 'destroy_n': ('destroy',),
+}
+
+
+def emul_effect(progs):
+    rr = RuleResult('EMUL-EFFECT', 'every overload of an emulated memory algorithm has the effect class of its standard counterpart: value-construct '
+                                   'writes every element (constructs or fills), copy/move/relocate construct or byte-copy, destroy destroys')
+    for prog in progs:
+        for f in prog.amc_functions():
+            sn = short(f['name'])
+            if f.get('body') is None or sn not in EMUL_EFFECT or not (f['name'].startswith('amc::memory_details::') or f['name'].startswith('amc::uninitialized_') or
+                                                                     f['name'].startswith('amc::destroy')):
+                continue
+            want = EMUL_EFFECT[sn]
+            have = set()
+            for n in walk(f['body']):
+                if n.get('k') == 'call':
+                    kd, det = R.role(n)
+                    if kd:
+                        have.add(kd)
+                    if A.cshort(n) in ('memcpy', 'memmove', 'memset'):
+                        have.add('bytecopy')
+                        have.add('assign') if A.cshort(n) == 'memset' else None
+                    if n.get('amc') and short(n.get('name', '')) in EMUL_EFFECT:
+                        have.update(EMUL_EFFECT[short(n['name'])])       # delegates to a sibling that is checked itself
+                    if n.get('op') == '=' and n.get('method'):
+                        have.add('assign')
+                if n.get('k') == 'new' and n.get('reserved_placement'):
+                    have.add('construct')
+                if n.get('k') == 'pseudodtor' or (n.get('k') == 'call' and n.get('name', '').endswith('(dtor)')):
+                    have.add('destroy')
+            for st, lhs in A.stores(f['body']):
+                l = A.strip(lhs)
+                if isinstance(l, dict) and (l.get('k') == 'un' and l.get('op') == '*'):
+                    have.add('assign')
+            # a destroy of a trivially destructible type legitimately does nothing
+            trivial_ok = sn.startswith('destroy')
+            ok = bool(have & set(want)) or trivial_ok
+            rr.instance('%s|%s' % (f['key'], f['pname'][:120]), {'function': f['pname'][:150], 'effects': sorted(have), 'required_one_of': list(want), 'ok': ok})
+            if not ok:
+                rr.add(Finding('EMUL-EFFECT', '%s' % f['key'], f.get('bloc') or f['loc'],
+                               'this overload of %s has none of the effects %s of the standard algorithm (found: %s): the elements are left as they were'
+                               % (sn, list(want), sorted(have) or 'nothing'), where=f['pname'], unit=prog.uname))
+    return rr
